@@ -51,6 +51,7 @@ _REQ = "td_req(nth(typed_dicts, {j}))"
 _OPT = "td_opt(nth(typed_dicts, {j}))"
 _KV = "key_value_types_dict"
 _EO = "existing_optional_fields"
+_HOK = "forall(typed_dicts, lambda t: td_okd(t, max_typed_dict_size))"
 _STD_LOOPS = {
     # outer loop: every TypedDict seen so far has contributed its required field types to kv[key] and its optional (key, type) pairs to eo
     0: {"iter": "typed_dicts",
@@ -100,6 +101,7 @@ contract("monkeytype.typing:shrink_typed_dict_types", props=["C04", "C05", "C06"
              "post:size": "implies(kind(result) is K_TD, len(td_req(result)) + len(td_opt(result)) <= max_typed_dict_size)",
              # C05: a key is required only if every merged TypedDict required it
              "post:required-iff-all": "implies(kind(result) is K_TD, forall(td_req(result), lambda key: forall(typed_dicts, lambda t: has(td_req(t), key))))",
+             "post:td-size-deep": "implies(forall(typed_dicts, lambda t: td_okd(t, max_typed_dict_size)), td_okd(result, max_typed_dict_size))",
          },
          hints={
              # ---- fallback path (Dict[str, V]): every collected type is among the types merged into V
@@ -126,6 +128,20 @@ contract("monkeytype.typing:shrink_typed_dict_types", props=["C04", "C05", "C06"
                                " and forall_val(lambda v: implies(mem(v, nth(nth(items_(%s), q), 1)), mem(v, lookup(L_optional_fields, nth(nth(items_(%s), q), 0))))), lambda q: nth(%s, q))))" % ((_OPT.format(j="j"),) * 5),
              "td-sup-opt": "implies(kind(result) is K_TD, forall(range_(0, len(typed_dicts)), lambda j: forall(%s, lambda key: has(L_optional_fields, key) and not has(L_required_fields, key)"
                            " and forall_val(lambda v: implies(mem(v, lookup(%s, key)), mem(v, lookup(L_optional_fields, key)))))))" % (_OPT.format(j="j"), _OPT.format(j="j")),
+             # ---- C06 deep: under the hypothesis that every input TypedDict is within the limit (all its nodes), so is every collected field type
+             "H-kv": "implies(%s, forall(L_key_value_types_dict, lambda key: forall(lookup(L_key_value_types_dict, key), lambda x: td_okd(x, max_typed_dict_size))))" % _HOK,
+             "H-eo": "implies(%s, forall(L_existing_optional_fields, lambda p: td_okd(nth(p, 1), max_typed_dict_size)))" % _HOK,
+             "H-optlists": "implies(%s and L_optional_fields is L_optional_fields, forall(L_optional_fields, lambda key: implies(kind(result) is K_Dict, forall(lookup(L_optional_fields, key), lambda x: td_okd(x, max_typed_dict_size)))))" % _HOK,
+             "H-flat": "implies(%s and L_value_type is L_value_type, forall(%s, lambda x: td_okd(x, max_typed_dict_size)))" % (_HOK, "flat_(concat_(values_(L_required_fields), values_(L_optional_fields)))"),
+             "H-value": "implies(%s and L_value_type is L_value_type, td_okd(L_value_type, max_typed_dict_size))" % _HOK,
+             "H-req-ok": "implies(%s and kind(result) is K_TD, forall(td_req(result), lambda key: td_okd(lookup(td_req(result), key), max_typed_dict_size)))" % _HOK,
+             "H-opt-ok": "implies(%s and kind(result) is K_TD, forall(td_opt(result), lambda key: td_okd(lookup(td_opt(result), key), max_typed_dict_size)))" % _HOK,
+             "H-first-size": "implies(%s, len(td_req(nth(typed_dicts, 0))) + len(td_opt(nth(typed_dicts, 0))) >= 1)" % _HOK,
+             "H-first-req": "implies(kind(result) is K_TD and len(td_req(nth(typed_dicts, 0))) >= 1, has(L_key_value_types_dict, nth(td_req(nth(typed_dicts, 0)), 0))"
+                            " and (has(L_required_fields, nth(td_req(nth(typed_dicts, 0)), 0)) or has(L_optional_fields, nth(td_req(nth(typed_dicts, 0)), 0))))",
+             "H-first-opt": "implies(kind(result) is K_TD and len(td_opt(nth(typed_dicts, 0))) >= 1, has(L_optional_fields, nth(td_opt(nth(typed_dicts, 0)), 0)))",
+             "H-some-key": "implies(%s and kind(result) is K_TD, len(L_required_fields) + len(L_optional_fields) >= 1)" % _HOK,
+             "H-nonempty": "implies(%s and kind(result) is K_TD, len(td_req(result)) + len(td_opt(result)) >= 1)" % _HOK,
          },
          loops=_STD_LOOPS)
 
@@ -134,7 +150,9 @@ contract("monkeytype.typing:shrink_types", props=["C04", "C05", "C06", "C01"], t
          requires={"wf": "forall(types, lambda t: wf_rw(t) and t is not ELLIPSIS_ and t is not None)", "k-int": "max_typed_dict_size is not None"},
          hints={"rewritten-wf": "forall(L_all_dict_types, lambda t: wf_rw(t) and t is not ELLIPSIS_)"},
          ensures={"post:super": _SUP, "post:wf": "wf_rw(result) and result is not ELLIPSIS_", "post:not-none": "result is not None",
-                  "post:empty": "implies(len(types) == 0, result is ANY)"},
+                  "post:empty": "implies(len(types) == 0, result is ANY)",
+                  # C06: merging keeps every TypedDict node within the limit
+                  "post:td-size-deep": "implies(forall(types, lambda t: td_okd(t, max_typed_dict_size)), td_okd(result, max_typed_dict_size))"},
          # C05: the literal Any is produced only for the empty input
          any_only_if="len(types) == 0")
 
@@ -151,6 +169,7 @@ contract("monkeytype.typing:get_dict_type", props=["C04", "C05", "C06", "C03"], 
                                   " and len(td_opt(result)) == 0 and forall(dct, lambda k: is_strval(k) and has(td_req(result), k)) and forall(td_req(result), lambda k: has(dct, k)))",
                   "post:td-disabled": "implies(max_typed_dict_size is not None and max_typed_dict_size <= 0, kind(result) is not K_TD)",
                   "post:empty-dict": "implies(len(dct) == 0, result is Dict_(ANY, ANY))",
+                  "post:td-size-deep": "td_okd(result, max_typed_dict_size)",
                   "post:kind": "kind(result) is K_Dict or kind(result) is K_TD"},
          any_only_if="len(dct) == 0")
 
@@ -161,6 +180,8 @@ contract("monkeytype.typing:get_type", props=["C04", "C05", "C06", "C02", "C03",
                   # C05: class names are the exact runtime classes of observed values; the bare Any is never a value's type
                   "post:exact-class": "implies(kind(result) is K_Class, result is cls_of(obj))",
                   "post:never-any": "result is not ANY",
+                  # C06: every TypedDict node of the inferred type, at any depth, has between 1 and k keys (none at all for k <= 0)
+                  "post:td-size-deep": "td_okd(result, max_typed_dict_size)",
                   "post:td-disabled": "implies(max_typed_dict_size is not None and max_typed_dict_size <= 0, kind(result) is not K_TD)"},
          # C05: the only literal Any in get_type is the element type of Iterator for generator objects (which cannot be inspected)
          any_only_if="is_generator_obj(obj)")
